@@ -833,6 +833,9 @@ func checkC06() fw.Check {
 								// a router on a second path answers the destination's TTL first (time-exceeded), the destination's
 								// own reply for that TTL comes later and replaces it: that reply, too, ends the sending
 								{"dest-after-router-same-ttl", mid, func(s drive.Spec) time.Duration { return s.Delay + s.Delay/2 }, false},
+								// a filtering target: its answer is "administratively prohibited" (UDP variants; the default form for the
+								// others). It is the destination's answer all the same: nothing is sent after it
+								{"filtering-target", mid, func(s drive.Spec) time.Duration { return s.Delay*2 + s.Delay/2 }, false},
 							}
 							if n > 100 && tier != "thorough" {
 								classes = classes[:2]
@@ -871,6 +874,15 @@ func checkC06() fw.Check {
 										for t := w.first; t <= w.last && (dc.dist == 0 || t < dc.dist); t++ {
 											if t%3 != 0 {
 												m.hops[t] = &hopSpec{addr: routerAddr(v.V6, 1, t), delay: time.Duration(5+t%50) * time.Millisecond}
+											}
+										}
+										if dc.name == "filtering-target" && v.Proto == "udp" {
+											code := uint8(13)
+											if v.V6 {
+												code = 1
+											}
+											m.destBuild = func(e *simEnv, p *refmatch.Probe) []byte {
+												return gen.WrapError(e.spec.Target, e.local, gen.DestUnreach, code, gen.QuoteBytes(p, 1, "fix"), "min", nil, 0)
 											}
 										}
 										if dc.name == "dest-after-router-same-ttl" && !v.Serial {
